@@ -42,10 +42,12 @@ def run(tier, seed, replay=None):
         for i in range(n):
             m = rng.choice(zoo)
             s = fsgen.gen_history(rng, policy, m, paths[m['name']], nevents=rng.choice([40, 60, 80]), profile='light', name='%s%04d' % (policy[:2], i),
-                                  malformed=rng.choice([0.3, 0.5]), reconfig=rng.choice([0, 0.05]), sync=0.02, restart=rng.choice([0, 0.02]), drain=False)
+                                  malformed=rng.choice([0.3, 0.5]), reconfig=rng.choice([0, 0.05]), sync=0.02, restart=rng.choice([0, 0.02]), drain=True)
             s['events'] += probe_events(i)
             s['_machine'] = m
             scripts.append(s)
+    if replay and 'events' in (json.load(open(replay)).get('replay') or {}):
+        scripts = maybe_replay(chk, replay, scripts, zoo, paths)
     traces = run_histories(chk, binary, [{k: v for k, v in s.items() if not k.startswith('_')} for s in scripts])
     nfind = collections.Counter()
     kinds = collections.Counter()
